@@ -516,4 +516,42 @@ def revcompNamedBag : List String → Bag → Bag × Bool
 def reverseComplementSequences (names : List String) (b : Bag) : Bag × Bool :=
   if b.alphabet != NUCLEOTIDS then (b, true) else revcompNamedBag names b
 
+/-! ### `DiffWithFirst` and `ReplaceMatchChars`: every row but the first rewritten against the first -/
+
+/-- rewrite every row but the first by `g first row` (Go: loops over `a.seqs` in order, writing in place) -/
+def againstFirst (g : Seq → Seq → Seq) : List (String × Seq) → List (String × Seq)
+  | [] => []
+  | r0 :: rest => r0 :: rest.map fun r => (r.1, g r0.2 r.2)
+
+/-- one row of `DiffWithFirst`: `for l < len(first) { if first[l] == other[l] { other[l] = '.' } }` -/
+def diffSeq (first other : Seq) : Seq :=
+  other.mapIdx fun i c => if i < first.length && first.getD i 0 == c then POINT else c
+
+/-- the loop reads `other[l]` for every `l < len(first)`: a row shorter than the first one is an index panic
+(fewer than two rows: nothing is read) -/
+def diffPanics : List (String × Seq) → Bool
+  | [] => false
+  | r0 :: rest => rest.any fun r => r.2.length < r0.2.length
+
+/-- `align.DiffWithFirst()`; `none` = index panic -/
+def diffWithFirstBag (b : Bag) : Option Bag :=
+  if diffPanics (pairs b) then none
+  else some { b with rows := withSeqs b.rows (againstFirst diffSeq (pairs b)) }
+
+/-- one row of `ReplaceMatchChars` over the cached length `L`:
+`if ref[site] != '.' && seq[site] == '.' { seq[site] = ref[site] }` -/
+def matchSeq (L : Nat) (ref other : Seq) : Seq :=
+  other.mapIdx fun i c => if i < L && ref.getD i 0 != POINT && c == POINT then ref.getD i 0 else c
+
+/-- with at least two rows the loop reads the reference and every other row at every site below the cached length -/
+def matchPanics (L : Nat) : List (String × Seq) → Bool
+  | [] => false
+  | [_] => false
+  | rows => rows.any fun r => r.2.length < L
+
+/-- `align.ReplaceMatchChars()`; `none` = index panic -/
+def replaceMatchCharsBag (b : Bag) : Option Bag :=
+  if matchPanics b.length.toNat (pairs b) then none
+  else some { b with rows := withSeqs b.rows (againstFirst (matchSeq b.length.toNat) (pairs b)) }
+
 end Gv.Model
